@@ -247,7 +247,8 @@ fn num_canon(x: f64) -> String {
 
 fn pick_value(rng: &mut StdRng, nsst: usize) -> Value {
     let text = |rng: &mut StdRng| -> String {
-        let pool = ["a", "b", "é", "€", "𝄞", " ", "<", "&", "\"", "Z", "漢", "0"];
+        // (U+FEFF and U+BBEF U+00BF -- bytes EF BB BF 00 -- are characters like any other, also at the start)
+        let pool = ["a", "b", "é", "€", "𝄞", " ", "<", "&", "\"", "Z", "漢", "0", "\u{FEFF}", "\u{BBEF}\u{BF}"];
         (0..rng.gen_range(1..6)).map(|_| pool[rng.gen_range(0..pool.len())]).collect()
     };
     match rng.gen_range(0..14) {
